@@ -169,6 +169,10 @@ func hashDoc(doc any) string {
 }
 
 // runFlatten loads the root afresh, analyzes it and flattens it under the option set.
+// preQuery, when set, is called on the fresh analyzer before Flatten (C10: callers do query the analyzer before they
+// flatten; an answer memoised then must not survive the rewrite).
+var preQuery func(sp *analysis.Spec)
+
 func runFlatten(files map[string]string, root string, o optSet, failAt int, nodes int) *flatRun {
 	return runFlattenFault(files, root, o, failAt, false, nodes)
 }
@@ -200,6 +204,9 @@ func runFlattenFault(files map[string]string, root string, o optSet, failAt int,
 	}
 	r.Stats, r.Panic = runner.Call(nodes, phaseFn, func() {
 		r.Spec = analysis.New(sw)
+		if preQuery != nil {
+			preQuery(r.Spec)
+		}
 		r.Err = analysis.Flatten(analysis.FlattenOpts{Spec: r.Spec, BasePath: root, Minimal: o.Minimal, Expand: o.Expand, RemoveUnused: o.RemoveUnused, KeepNames: o.KeepNames})
 	})
 	r.Loads, r.Faulted = ld.loads, ld.failed
@@ -512,6 +519,19 @@ func (e flattenEngine) Check(prop, tier string, c *runner.Case) *runner.Result {
 		nodes += jx.CountNodes(d)
 	}
 	opts := applicable(prop, c.Opts)
+	preQuery = nil
+	if (prop == "C10" || prop == "CALL") && len(c.Name)%2 == 0 {
+		// every second bundle: all getters are queried once on the analyzer before it is handed to Flatten
+		dom := DomainOf(jx.AsObj(before.Docs[root]))
+		gs := GetterList(dom)
+		preQuery = func(sp *analysis.Spec) {
+			for _, g := range gs {
+				_ = Answer(g, sp)
+			}
+		}
+		res.Ev("bundles_queried_before_flatten", 1)
+		defer func() { preQuery = nil }()
+	}
 	if prop == "C07" && tier != "thorough" {
 		// quick tier: three representative option sets per bundle (bundle shape matters more than the option set here)
 		var sel []string
